@@ -62,6 +62,7 @@ type CheckCfg struct {
 	Quick      TierCfg           `json:"quick"`
 	Thorough   TierCfg           `json:"thorough"`
 	Workers    int               `json:"workers"`
+	RuntimeOv  bool              `json:"runtime_overlay"` // overlay the patched Go runtime files (simkit/goroot) and build with tag verifrt
 	Also       []string          `json:"also"`   // further harness ids run as part of this check (their classes count for this property)
 	Parent     string            `json:"parent"` // set in a sub-harness: the property id it reports for
 	GoGates    []string          `json:"go_gates"` // globs of files whose `go` statements get a gate at goroutine start
@@ -306,6 +307,20 @@ func build(cfg *CheckCfg) (*buildOut, error) {
 		overlay[filepath.Join(repoDir, dst)] = s
 	}
 
+	// 2b. patched Go runtime (reproducible select order, map iteration, run queue)
+	tags := ""
+	if cfg.RuntimeOv {
+		gr, err := exec.Command(goBin, "env", "GOROOT").Output()
+		if err != nil {
+			return nil, fmt.Errorf("go env GOROOT: %v", err)
+		}
+		groot := strings.TrimSpace(string(gr))
+		for _, f := range []string{"select", "proc", "rand", "alg"} {
+			overlay[filepath.Join(groot, "src", "runtime", f+".go")] = filepath.Join(verifDir, "simkit", "goroot", "runtime_"+f+".go.txt")
+		}
+		tags = "verifrt"
+	}
+
 	// 3. blank the existing tests of the harness package(s)
 	blank := append([]string{cfg.Pkg}, cfg.BlankTests...)
 	for _, p := range blank {
@@ -335,7 +350,12 @@ func build(cfg *CheckCfg) (*buildOut, error) {
 
 	// 5. compile the test binary
 	bin := filepath.Join(bdir, "test.bin")
-	c := exec.Command(goBin, "test", "-c", "-vet=off", "-ldflags=-checklinkname=0", "-overlay", ovPath, "-modfile", modPath, "-o", bin, cfg.Pkg)
+	args := []string{"test", "-c", "-vet=off", "-ldflags=-checklinkname=0", "-overlay", ovPath, "-modfile", modPath, "-o", bin}
+	if tags != "" {
+		args = append(args, "-tags", tags)
+	}
+	args = append(args, cfg.Pkg)
+	c := exec.Command(goBin, args...)
 	c.Dir = repoDir
 	c.Env = goEnv()
 	var outb bytes.Buffer
